@@ -140,7 +140,11 @@ func (h *Handler) ServeHTTP(response http.ResponseWriter, request *http.Request)
 	}
 	data, err := readAll(request.Body, request.ContentLength)
 	if err != nil {
+		// a body that ends before Content-Length bytes must not reach the service
 		h.onError(response, request, err)
+		_ = request.Body.Close()
+		response.WriteHeader(http.StatusBadRequest)
+		return
 	}
 	if err = request.Body.Close(); err != nil {
 		h.onError(response, request, err)
